@@ -1,6 +1,7 @@
 // serde_json::to_string – uninterpreted, injective rendering per value.
 use vstd::prelude::*;
 verus! {
+#[derive(Debug)]
 pub struct Error { pub dummy: u8 }
 pub trait JsonSpec { spec fn json(&self) -> Seq<char>; }
 #[verifier::external_body]
